@@ -7,7 +7,7 @@ ID = 'C14'
 COQ_TARGETS = ['Props/Properties_C14.vo']
 PROPS_FILES = ['Props/Properties_C14.v']
 THEOREMS = ['C14_domain', 'C14_domain_exact', 'C14_local', 'C14_local_refuted', 'C14_local_partial',
-            'C14_parseaddr', 'C14_addrsyntax', 'C14_addrparse', 'C14_xtext', 'C14_safe', 'C14_writes', 'C14_oracle_ref']
+            'C14_parseaddr', 'C14_addrsyntax', 'C14_addrparse', 'C14_xtext', 'C14_safe', 'C14_writes', 'C14_oracle_ref', 'C14_char_sign_independent']
 ENGINES = [dict(name='addr', c_sources=['addr_h.c'], extract='Extract/Extract_addr.v', driver='addr_driver.ml',
                 glue=('glue.ml', 'glue_z.ml'), accepts=lambda c: c[:2] in ('d0', 'd1', 'd2', 'd3', 'd4', 'd5', 'd6'))]
 RULE = ('cases = arguments of domainvalid / parselocalpart / parseaddr+checkaddr+addrspec_valid / addrsyntax (flags 0,1,2) / xtextlen / '
@@ -34,8 +34,8 @@ TRUSTED_BASE = [
 ASSUMPTIONS = [
     'the argument is NUL-terminated inside its buffer (net_read() terminates linein); lines are shorter than 2^31 so int/ssize_t do not wrap',
     'malloc/strdup succeed (the -1/ENOMEM return of addrsyntax is not modelled)',
-    'char is signed as on this compiler (the translator evaluates the C comparisons with the signedness gcc reports; '
-    'with unsigned char the test *t >= 93 in parselocalpart would admit 8-bit bytes inside quotes)',
+    'the translator evaluates the C character tests with the signedness of char gcc reports (signed here) and, for '
+    'C14_char_sign_independent, with the other one; the differential run exercises the signed build only',
     'RCPT TO:<postmaster> (no domain, any case) is an accepted special form (RFC 5321 4.1.1.3) outside the property text',
     'the C locale for strcasecmp',
 ]
@@ -426,8 +426,9 @@ LEVEL_TEXT = ('Machine-checked Coq theorems over an executable model of domainva
               'writes anything but NULs inside the line. The stronger "dot-string or one quoted string" is refuted (a..b) and recorded as F-C14-2. '
               'Character classes and limits are regenerated from the C on every run; model tied to the C by a differential run under ASan + guard page.')
 LEVEL_NOTE = ('Trusted: Coq kernel, translator (expression evaluator, regexes), extraction, harness, generator quality of the correspondence run. '
-              'inet_pton is an oracle with a character contract. Requires fixes/C14-domainvalid-first-label.diff and fixes/C14-xtext-encoded-nul.diff '
-              'in the tree; without them the check reports the 64-octet first label / the +00 xtext as violations.')
+              'inet_pton is an oracle with a character contract. Requires fixes/C14-domainvalid-first-label.diff, fixes/C14-xtext-encoded-nul.diff and fixes/C14-quoted-8bit-unsigned-char.diff '
+              'in the tree; without them the check reports the 64-octet first label / the +00 xtext as violations with a replay and the '
+              'char-signedness dependence as a broken proof.')
 TECHNIQUE = ('Coq proof by structural induction over the buffer with explicit loop invariants; 256-entry character tables generated from the C '
              'expressions and discharged by vm_compute; model-vs-C differential run with guard page and ASan')
 DESIGN_REF = 'DESIGN.md section 5, C14'
